@@ -115,7 +115,8 @@ def model(cfg, ctx, group, args):
         if s >= 2 * b:
             cls.add('amount>=2*BITS')
     # the same shift through the operators with other primitive amount types (the amount s itself is always a u32 here)
-    for t, hi in (('i32', 2 ** 31 - 1), ('usize', 2 ** 64 - 1), ('i64', 2 ** 63 - 1), ('u128', 2 ** 128 - 1), ('u8', 255), ('i16', 2 ** 15 - 1)):
+    for t, hi in (('i32', 2 ** 31 - 1), ('usize', 2 ** 64 - 1), ('i64', 2 ** 63 - 1), ('u128', 2 ** 128 - 1), ('u8', 255), ('i16', 2 ** 15 - 1),
+                  ('i8', 127), ('u16', 65535), ('u64', 2 ** 64 - 1), ('i128', 2 ** 127 - 1), ('isize', 2 ** 63 - 1)):
         for nm in ('shl', 'shr'):
             e = exp[nm]
             if s > hi:
